@@ -231,6 +231,13 @@ def tasks(tier, seed):
         ts.append({"id": f"run[{cls}]", "fn": "run_task",
                    "args": {"cls_name": cls, "ctype": ct, "cone": "orthant2", "W": W, "N": N, "steps": steps, "batch": 1,
                             "prop": "C07", "tier": tier}, "weight": 100})
+    # sparse mid-run active sets whose set-iteration order differs from the sorted order ({8, 1} iterates as 8, 1):
+    # the pairing of queried designs and returned observations must not depend on that order
+    for cls, ct in (("PaVeBa", None), ("Auer", None), ("VOGP", None), ("PaVeBaGP", "hyperrectangle")):
+        W = None if cls == "Auer" else cs["orthant2"].tolist()
+        ts.append({"id": f"run[{cls},sparse S={{8,1}}]", "fn": "run_task",
+                   "args": {"cls_name": cls, "ctype": ct, "cone": "orthant2", "W": W, "N": 9, "steps": 1, "batch": 1,
+                            "prop": "C07", "tier": tier, "initial_S": [8, 1]}, "weight": 100})
     return ts
 
 
